@@ -24,12 +24,12 @@ def run(ck):
     ck.notes["legB"] = {"states": s["states"], "transitions": s["transitions"], "unreachable_states": s["unreachable_states"]}
     os.remove(a.out_path)
     ck.cmds.append("tlc -config %s C11_MC.tla; vh c11-replay; vh c11-record; tlc C11_Trace.tla" % cfg)
-    nh, ln = (120, 200) if q else (1500, 2000)
+    nh, ln = (120, 200) if q else (1500, 600)
     tr = os.path.join(ck.wd, "c11_trace.ndjson")
     s = vlib.vh_json(["c11-record", ck.seed, nh, ln, tr], timeout=3400)
     for b in s["bad"]:
         ck.violation("varscope:run:%s%s" % (b["cmd"], ":panic" if "PANIC" in b["why"] else ""), "%s %s: %s" % (b["cmd"], b["args"], b["why"]), b)
-    r, k, viol, drift = vlib.trace_validate("C11_Trace", "Trace.cfg", ck.wd, tr, timeout=3400)
+    r, k, viol, drift = vlib.trace_validate("C11_Trace", "Trace.cfg", ck.wd, tr, timeout=3400, boundary=lambda x: x.get("ev") == "reset")
     if k != s["events"]:
         raise vlib.ToolError("trace validation consumed %d of %d" % (k, s["events"]))
     ck.add_tlc(r, "C: trace validation of %d steps" % s["events"])
